@@ -50,7 +50,16 @@ def main(argv=None) -> int:
 
 
 if __name__ == "__main__":
-    rc = main()
+    import shutil
+    import tempfile
+    # every scratch file of this run (parent and forked workers) lives under one directory that is removed at the end
+    _root = tempfile.mkdtemp(prefix="vmc_run_")
+    tempfile.tempdir = _root
+    os.environ["TMPDIR"] = _root
+    try:
+        rc = main()
+    finally:
+        shutil.rmtree(_root, ignore_errors=True)
     sys.stdout.flush()
     sys.stderr.flush()
     # skip interpreter teardown: half-consumed parsers of a broken tree under test can crash there
